@@ -64,12 +64,27 @@ void __real_silk_gains_quant(opus_int8 ind[],opus_int32 gain_Q16[],opus_int8 *pr
 void __wrap_silk_gains_quant(opus_int8 ind[],opus_int32 gain_Q16[],opus_int8 *prev_ind,const opus_int conditional,const opus_int nb_subfr){ opus_int8 p0=*prev_ind, pd=p0; opus_int32 gd[4];
   __real_silk_gains_quant(ind,gain_Q16,prev_ind,conditional,nb_subfr); silk_gains_dequant(gd,ind,&pd,conditional,nb_subfr); vc_count("live_gain_quants",1);
   if(pd!=*prev_ind||memcmp(gd,gain_Q16,sizeof(opus_int32)*nb_subfr)) vc_viol("gains:quant-dequant-differ","live encoder: prev=%d cond=%d nb=%d: encoder keeps index %d gains %d,%d; decoder reconstructs index %d gains %d,%d",p0,conditional,nb_subfr,*prev_ind,gain_Q16[0],gain_Q16[1],pd,gd[0],gd[1]); }
+/* pitch: the lags the encoder goes on to use (LTP analysis, noise shaping, NSQ) must be the lags the decoder rebuilds from the transmitted lag and contour indices */
+#ifdef FIXED_POINT
+opus_int __real_silk_pitch_analysis_core(const opus_int16 *frame,opus_int *pitch_out,opus_int16 *lagIndex,opus_int8 *contourIndex,opus_int *LTPCorr_Q15,opus_int prevLag,const opus_int32 t1,const opus_int t2,const opus_int Fs_kHz,const opus_int complexity,const opus_int nb_subfr,int arch);
+opus_int __wrap_silk_pitch_analysis_core(const opus_int16 *frame,opus_int *pitch_out,opus_int16 *lagIndex,opus_int8 *contourIndex,opus_int *LTPCorr_Q15,opus_int prevLag,const opus_int32 t1,const opus_int t2,const opus_int Fs_kHz,const opus_int complexity,const opus_int nb_subfr,int arch){
+  opus_int rc=__real_silk_pitch_analysis_core(frame,pitch_out,lagIndex,contourIndex,LTPCorr_Q15,prevLag,t1,t2,Fs_kHz,complexity,nb_subfr,arch);
+#else
+opus_int __real_silk_pitch_analysis_core_FLP(const silk_float *frame,opus_int *pitch_out,opus_int16 *lagIndex,opus_int8 *contourIndex,silk_float *LTPCorr,opus_int prevLag,const silk_float t1,const silk_float t2,const opus_int Fs_kHz,const opus_int complexity,const opus_int nb_subfr,int arch);
+opus_int __wrap_silk_pitch_analysis_core_FLP(const silk_float *frame,opus_int *pitch_out,opus_int16 *lagIndex,opus_int8 *contourIndex,silk_float *LTPCorr,opus_int prevLag,const silk_float t1,const silk_float t2,const opus_int Fs_kHz,const opus_int complexity,const opus_int nb_subfr,int arch){
+  opus_int rc=__real_silk_pitch_analysis_core_FLP(frame,pitch_out,lagIndex,contourIndex,LTPCorr,prevLag,t1,t2,Fs_kHz,complexity,nb_subfr,arch);
+#endif
+  vc_count("live_pitch_analyses",1); if(rc!=0) return rc;   /* unvoiced: no lags are transmitted */
+  opus_int d[MAX_NB_SUBFR]; silk_decode_pitch(*lagIndex,*contourIndex,d,Fs_kHz,nb_subfr); vc_count("live_pitch_voiced",1); int atmax=0;
+  for(int k=0;k<nb_subfr;k++){ if(d[k]>=18*Fs_kHz-1||d[k]<=2*Fs_kHz+1) atmax=1; if(d[k]!=pitch_out[k]){ vc_viol("pitch:encoder-decoder-differ","live encoder, %d kHz, %d sub-frames: the pitch estimator keeps lags %d %d %d %d, silk_decode_pitch rebuilds %d %d %d %d from lagIndex %d contour %d",Fs_kHz,nb_subfr,pitch_out[0],pitch_out[1],nb_subfr>2?pitch_out[2]:0,nb_subfr>2?pitch_out[3]:0,d[0],d[1],nb_subfr>2?d[2]:0,nb_subfr>2?d[3]:0,*lagIndex,*contourIndex); break; } }
+  if(atmax) vc_count("live_pitch_at_lag_limit",1); return rc; }
 static void mode_nlsfenc(void){
   vc_rng r; vc_case_rng(&r,19); int err; int Fs=VC_PICK(&r,vk_rates), ch=1+vc_below(&r,2); OpusEncoder *e=opus_encoder_create(Fs,ch,vc_chance(&r,1,2)?OPUS_APPLICATION_VOIP:OPUS_APPLICATION_AUDIO,&err);
   opus_encoder_ctl(e,VK_SET_FORCE_MODE_REQUEST,vc_chance(&r,3,4)?VK_MODE_SILK:VK_MODE_HYBRID); opus_encoder_ctl(e,OPUS_SET_BITRATE(vc_range(&r,6000,60000)*ch)); opus_encoder_ctl(e,OPUS_SET_COMPLEXITY(vc_below(&r,11))); if(vc_chance(&r,1,3)){ opus_encoder_ctl(e,OPUS_SET_INBAND_FEC(1)); opus_encoder_ctl(e,OPUS_SET_PACKET_LOSS_PERC(vc_range(&r,5,40))); }
   if(vc_chance(&r,1,2)) opus_encoder_ctl(e,OPUS_SET_BANDWIDTH(OPUS_BANDWIDTH_NARROWBAND+(int)vc_below(&r,3)));
   vc_siggen g; vs_init(&g,vc_below(&r,VS_NFINITE),Fs,ch,vc_chance(&r,1,4)?1.0f:(float)(0.01+0.8*vc_unit(&r)),vc_next(&r)); static float in[5760*2]; unsigned char pk[1500]; int fidx=vc_range(&r,2,8);
-  for(int k=0;k<30;k++){ if(vc_chance(&r,1,8)){ g.kind=vc_below(&r,VS_NFINITE); g.amp=vc_chance(&r,1,3)?1.0f:(float)(0.001+0.5*vc_unit(&r)); } if(vc_chance(&r,1,10)) opus_encoder_ctl(e,OPUS_SET_BITRATE(vc_range(&r,5000,80000)*ch)); int fs=vk_frame_samples(Fs,fidx); vs_fill(&g,in,fs); opus_encode_float(e,in,fs,pk,1500); }
+  if(vc_chance(&r,1,4)){ g.kind=VS_VOICED; g.f0= vc_chance(&r,1,2)?50+vc_unit(&r)*12:420+vc_unit(&r)*120; g.amp=0.5f; }   /* pitch gliding across the 18 ms / 2 ms lag limits */
+  for(int k=0;k<30;k++){ if(vc_chance(&r,1,8)&&g.f0>=80&&g.f0<=400){ g.kind=vc_below(&r,VS_NFINITE); g.amp=vc_chance(&r,1,3)?1.0f:(float)(0.001+0.5*vc_unit(&r)); } if(vc_chance(&r,1,10)) opus_encoder_ctl(e,OPUS_SET_BITRATE(vc_range(&r,5000,80000)*ch)); int fs=vk_frame_samples(Fs,fidx); vs_fill(&g,in,fs); opus_encode_float(e,in,fs,pk,1500); }
   opus_encoder_destroy(e);
 }
 
